@@ -652,7 +652,10 @@ def dispatch_eval(ctx, rule, funcs):
         ps = params(fn)
         mod = ctx.py.mod(rel)
         # the kernels this function can call: compiled ones (_geometry.*) and the module's own reference implementations (_name)
-        knames = sorted({call_name(c) for c in ast.walk(fn) if isinstance(c, ast.Call) and call_name(c) and (call_name(c).startswith("_geometry.") or (call_name(c).startswith("_") and call_name(c) in mod.functions))})
+        # (a module function is a kernel when it takes the index array; other private functions are helpers and are evaluated from their source)
+        INDEX_PARAMS = {"atom_pairs", "pairs", "angle_indices", "indices", "triplets", "quartets", "time_pairs", "times"}
+        knames = sorted({call_name(c) for c in ast.walk(fn) if isinstance(c, ast.Call) and call_name(c) and (call_name(c).startswith("_geometry.") or (
+            call_name(c).startswith("_") and call_name(c) in mod.functions and INDEX_PARAMS & set(params(mod.functions[call_name(c)]))))})
         width = {"angle_indices": 3, "indices": 4}.get(ps[1], 2)
         idx = Ten((2, width), [Rat(Poly.const(v)) for v in ([0, 1, 2, 3][:width] + [1, 2, 3, 4][:width])])
         problems = []
